@@ -147,10 +147,10 @@ PROPS = {
                'name:FLOATVECTOR.RAND', 'name:NAME.RAND', 'name:NAME.RANDBOUNDNAME'],
         explanation='relative to the RNG contract: INTEGER.RAND / FLOAT.RAND values inside [min, max) and nothing when min >= max; random_int_vector length and element range, None for size < 0 or max <= min; '
                     'random_float_vector length, None for a negative size, no unwrap of a failed Normal::new; random_bool_vector: a vector exactly for size >= 0 and 0 <= sparsity <= 1, length = size, and the minority value (TRUE for sparsity <= 0.5) occurs EXACTLY trunc(round(100*min(s,1-s))/100 * size) times (count invariant over the rejection loop; f32 operations uninterpreted, in the order the code applies them), every drawn index inside the vector; '
+                    'existing_random_name / NAME.RANDBOUNDNAME return a currently bound name whenever one exists (R9h: keys().cloned().collect() as a loop over the map; A-string-ext); '
                     'BOOLVECTOR/INTVECTOR/FLOATVECTOR.RAND pass their operands in the documented order (size on top; max, min below; mean on top of deviation) and push nothing for invalid parameters',
         not_decided=['"every position able to become TRUE" is a possibility (exists-run) property; its safety shadow -- indices are drawn from the whole range 0..size -- is what the gen_range contract checks',
                      'that the f32 share round(100*min(s,1-s))/100 is the documented rounding of the sparsity: float arithmetic (values uninterpreted)',
-                     'NAME.RANDBOUNDNAME returns a bound name: existing_random_name is outside Verus',
                      'termination of the rejection loop (probabilistic)'],
         assumptions=['float lemmas L1, L2 (Kani, thorough tier)'],
         thorough=True,
